@@ -851,7 +851,7 @@ func (g *gen) applyCall(val ssa.Value, c *ssa.CallCommon, full, short string, or
 		argT = append(argT, g.operand(a))
 	}
 	// in-body assertions anchored before this call
-	g.anchoredAsserts(full, short, ord, false, nil, pos)
+	g.anchoredAsserts(full, short, ord, false, nil, argT, pos)
 
 	pre := map[string]string{}
 	for k, v := range g.cur {
@@ -982,6 +982,9 @@ func (g *gen) applyCall(val ssa.Value, c *ssa.CallCommon, full, short string, or
 		}
 		e.assuming = true
 		for _, en := range ct.Ensures {
+			if strings.Contains(en.Text, "res(") {
+				continue // refers to calls inside the callee: verified there, not visible to callers
+			}
 			g.assume(implies(g.curReach, g.specBool(e, en)))
 		}
 		if ct.Fresh && len(res) > 0 && res[0].Sort == sSlice {
@@ -992,7 +995,7 @@ func (g *gen) applyCall(val ssa.Value, c *ssa.CallCommon, full, short string, or
 		g.callResults = map[string][]T{}
 	}
 	g.callResults[fmt.Sprintf("%s#%d", short, ord)] = res
-	g.anchoredAsserts(full, short, ord, true, res, pos)
+	g.anchoredAsserts(full, short, ord, true, res, argT, pos)
 }
 
 func (g *gen) bindResults(val ssa.Value, res []T) {
@@ -1093,7 +1096,7 @@ func (g *gen) tolerated(full, short string, ord int) *Tolerate {
 	return nil
 }
 
-func (g *gen) anchoredAsserts(full, short string, ord int, after bool, res []T, pos token.Pos) {
+func (g *gen) anchoredAsserts(full, short string, ord int, after bool, res []T, args []T, pos token.Pos) {
 	if g.ct == nil {
 		return
 	}
@@ -1112,6 +1115,9 @@ func (g *gen) anchoredAsserts(full, short string, ord int, after bool, res []T, 
 		}
 		for j, r := range res {
 			e.vars[fmt.Sprintf("r%d", j)] = r
+		}
+		for j, a := range args {
+			e.vars[fmt.Sprintf("arg%d", j)] = a
 		}
 		when := "before"
 		if after {
